@@ -98,6 +98,26 @@ class Gen:
             out.append({f"p{i}": parent() for i in range(r.randint(1, 3))})
         return out
 
+    def type_twin(self, samples):
+        """insert, right after one sample, a copy that is EQUAL under Python's == but differs in JSON type somewhere
+        (1 / 1.0, 0 / false, 1 / true): anything that compares or de-duplicates samples with == loses a type"""
+        r = self.r
+
+        def twin(v):
+            if isinstance(v, bool):
+                return int(v)
+            if isinstance(v, int):
+                return float(v) if r.random() < 0.7 or v not in (0, 1) else bool(v)
+            if isinstance(v, float) and v == int(v) and abs(v) < 1e15:
+                return int(v)
+            if isinstance(v, list):
+                return [twin(x) for x in v]
+            if isinstance(v, dict):
+                return {k: twin(x) for k, x in v.items()}
+            return v
+        i = r.randrange(len(samples))
+        return samples[:i + 1] + [twin(samples[i])] + samples[i + 1:]
+
     def variants(self):
         """3-4 samples, each holding ONE nested object under a different key; the objects share their field names and differ
         in what a field holds (int / float / missing / null / numeric string): the models get merged, and what the merged
